@@ -993,7 +993,14 @@ class ModelImpl(*_model_impl_base):
         if name in self.spaces:
             return self.spaces[name].interface
         elif name in self.global_refs:
-            return self.global_refs[name].interface
+            ref = self.global_refs[name]
+            if self.system.callstack.counter:
+                # read by a formula as `_model.name`: recorded like a read
+                # through a space (BaseSpaceImpl.get_attr)
+                self.system.refstack.append(
+                    (self.system.callstack.counter - 1, ref)
+                )
+            return ref.interface
         else:
             raise AttributeError(
                 "Model '{0}' does not have '{1}'".format(self.name, name)
